@@ -64,6 +64,7 @@ inline std::string fmt(const char *f, ...) {
 // ------------------------------------------------------------------ statistics
 struct Stats {
     uint64_t evaluations = 0, aborted = 0, inconclusive = 0;
+    uint64_t distinct_by_construction = 0;   // exhaustive enumerations: every tuple is distinct, no hash set needed
     std::unordered_set<uint64_t> nontrivial;
     std::map<std::string, uint64_t> classes, excluded;
     std::vector<std::string> samples;
@@ -103,7 +104,7 @@ inline void flush_stats() {
     if (s.dir.empty() || s.replaying) return;
     std::ostringstream o;
     o << "{\"evaluations\":" << s.evaluations << ",\"aborted_by_library_assert\":" << s.aborted
-      << ",\"oracle_inconclusive\":" << s.inconclusive << ",\"distinct_nontrivial\":" << s.nontrivial.size()
+      << ",\"oracle_inconclusive\":" << s.inconclusive << ",\"distinct_nontrivial\":" << s.nontrivial.size() << ",\"distinct_by_construction\":" << s.distinct_by_construction
       << ",\"classes\":{";
     bool first = true;
     for (auto &kv : s.classes) { o << (first ? "" : ",") << '"' << jesc(kv.first) << "\":" << kv.second; first = false; }
